@@ -182,8 +182,12 @@ def _run_fault(cfg, rec):
                             eqs = []
                             for j, lab in enumerate(free):
                                 pj = res.optimized_parameters.get(lab)
-                                want = ctx.uf("exp", zreal(x[j])) if pj.non_negative else zreal(x[j])
-                                eqs.append(zreal(pj.value) == want)
+                                if pj.non_negative:  # to the documented 1e-10 guard of the log transformation at value 1
+                                    want = ctx.uf("exp", zreal(x[j]))
+                                    dv = zreal(pj.value) - want
+                                    eqs.append(z3.And(dv <= z3.Q(1, 10**9) * want, -dv <= z3.Q(1, 10**9) * want))
+                                else:
+                                    eqs.append(zreal(pj.value) == zreal(x[j]))
                             alts.append(z3.And(eqs))
                         items.append(("reported parameters equal a parameter set that was evaluated without error",
                                       z3.Or(alts) if alts else z3.BoolVal(False), "fault:parameters-not-from-good-evaluation"))
@@ -193,8 +197,9 @@ def _run_fault(cfg, rec):
                         final = out["calls"][-n_per:] if n_per else []
                         good_kids = [{c["kid"] for c in out["calls"][i * n_per : (i + 1) * n_per]} for i in range(len(good))]
                         fk = {c["kid"] for c in final}
-                        items.append(("result datasets are computed from those same parameters",
-                                      z3.BoolVal(bool(final) and any(fk == g for g in good_kids)), "fault:datasets-from-other-parameters"))
+                        if not any(p_.non_negative for p_ in out["scheme"].parameters.all()):
+                            items.append(("result datasets are computed from those same parameters",
+                                          z3.BoolVal(bool(final) and any(fk == g for g in good_kids)), "fault:datasets-from-other-parameters"))
                         fixed_ok = all(
                             c10._eqv(res.optimized_parameters.get(p_.label).value, p_.value)
                             for p_ in out["scheme"].parameters.all() if not p_.vary and p_.expression is None
